@@ -158,6 +158,8 @@ func udpExec(tok []string) string {
 		return e2eExec(tok)
 	case "sudp":
 		return sudpExec(tok)
+	case "spx":
+		return spxExec(tok)
 	case "tunnel":
 		ps := atoi(strings.TrimPrefix(tok[1], "ps="))
 		k := atoi(strings.TrimPrefix(tok[2], "k="))
@@ -609,4 +611,7 @@ func udpGen(rng *rand.Rand, n int, emit func(string)) {
 		e2esGen(1500, 0, 0, 1+rng.Intn(5), 30+rng.Intn(100), 1500)
 		e2esGen(1500, 1, 1, 1+rng.Intn(5), 30+rng.Intn(100), 1500)
 	}
+	// (e) the server side of a udp proxy (server/proxy/udp.go) inside a real frps, the harness playing frpc:
+	// replacement of the work connection while idle and under traffic
+	spxGen(rng, n, emit)
 }
